@@ -129,23 +129,43 @@ def check(c):
         for d in nums:
             c.ob('C48.numbering', c.key(n, gi) + ' after the number is taken',
                  cg.dominated_by(n, lambda s, d=d: s is d), c.where(n, gi), '')
+    # a relink is requested by `relink = True` (the flag is what is
+    # returned) or by a return whose first element is the literal True
+    ret = [r for r in c.idx.walk(gi.node) if isinstance(r, ast.Return)]
+
+    def elts(r):
+        return r.value.elts if isinstance(r.value, ast.Tuple) and len(
+            r.value.elts) == 3 else None
+
+    def lit(e, v):
+        return isinstance(e, ast.Constant) and e.value is v
+    true_rets = [r for r in ret if elts(r) and lit(elts(r)[0], True)]
+    for r in ret:
+        e = elts(r)
+        ok = e is not None and (norm(e[0]) == 'relink' or lit(e[0], True)
+                                or lit(e[0], False)) \
+            and norm(e[1]) in ('run_num', 'None') \
+            and norm(e[2]) in ('rundir', 'run_path_base')
+        if ok and not lit(e[0], False):
+            # (where a relink may be requested the number and the numbered
+            # directory are what is handed back)
+            ok = norm(e[1]) == 'run_num' and norm(e[2]) == 'rundir'
+        c.ob('C48.runN', c.key(r, gi) + ' returns (relink, run_num, rundir)',
+             ok, c.where(r, gi), '')
     rel = [n for n in c.idx.walk(gi.node) if isinstance(n, ast.Assign)
            and norm(n.targets[0]) == 'relink' and norm(n.value) == 'True']
-    c.exactly('C48.runN', 'relink = True', len(rel), 1)
-    for n in rel:
+    c.exactly('C48.runN', 'relink request (relink = True / return (True, ..))',
+              len(rel) + len(true_rets), 1)
+    for n in rel + true_rets:
         c.guard('C48.runN', n, ['!no_run_name', '!run_name'], gi,
                 what='runN is only managed for numbered runs;')
         c.pre('C48.runN', gi, n, c.matches('unlink_runN(run_path_base)'),
               'unlink_runN(run_path_base)')
-    ret = [r for r in c.idx.walk(gi.node) if isinstance(r, ast.Return)]
-    for r in ret:
-        c.ob('C48.runN', c.key(r, gi) + ' returns (relink, run_num, rundir)',
-             norm(r.value) == '(relink, run_num, rundir)', c.where(r, gi), '')
     un = c.find(gi, 'unlink_runN(_)')
     for n in un:
         # the old link is removed only when a relink is then requested
-        c.post('C48.runN', gi, n, c.assigns('relink', 'True'),
-               'relink = True')
+        c.post('C48.runN', gi, n, lambda s: any(s is x for x in rel) or any(
+            s is r.value for r in true_rets), 'relink = True')
     # install_workflow unpacks in the same order and relinks
     unp = [n for n in c.idx.walk(iw.node) if isinstance(n, ast.Assign)
            and isinstance(n.value, ast.Call)
@@ -183,12 +203,13 @@ def check(c):
         recv = norm(n.func.value)
         defs = [a for a in c.idx.walk(ln.node) if isinstance(a, ast.Assign)
                 and norm(a.targets[0]) == recv]
-        ok = len(defs) == 1 and norm(defs[0].value) in (
-            'Path(latest_run.parent, WorkflowFiles.RUN_N)',
-            'latest_run.parent / WorkflowFiles.RUN_N',
-            'latest_run.parent.joinpath(WorkflowFiles.RUN_N)')
+        forms = ('Path(latest_run.parent, WorkflowFiles.RUN_N)',
+                 'latest_run.parent / WorkflowFiles.RUN_N',
+                 'latest_run.parent.joinpath(WorkflowFiles.RUN_N)')
+        ok = (len(defs) == 1 and norm(defs[0].value) in forms) or (
+            not defs and recv in forms)
         c.ob('C48.runN', c.key(n, ln) + ' creates <parent>/runN', ok,
-             c.where(n, ln), norm(defs[0].value) if defs else '')
+             c.where(n, ln), norm(defs[0].value) if defs else recv)
         c.ob('C48.runN', c.key(n, ln) + ' points at the run\'s own name',
              norm(n.args[0]) in ('latest_run.name', 'latest_run'),
              c.where(n, ln), norm(n.args[0]))
@@ -234,7 +255,10 @@ def check(c):
     c.floor('C48.next-number', 'number taken from the runN link',
             len(via_link), 1)
     c.exactly('C48.next-number', 'fallback definition', len(fallback), 1)
-    last = [n for n in via_link if norm(n.value) == 'int(last_run_num)']
+    last = [n for n in via_link if isinstance(n.value, ast.Call)
+            and norm(n.value.func) == 'int' and len(n.value.args) == 1
+            and (norm(n.value.args[0]) == 'last_run_num'
+                 or c.find(n.value.args[0], '_.group(1)'))]
     c.floor('C48.next-number', 'int() of the captured number', len(last), 1)
     rl = c.find(gn, 'os.readlink(run_n_path)')
     c.floor('C48.next-number', 'readlink of runN', len(rl), 1)
